@@ -689,7 +689,6 @@ theorem hw_of_hist {r : RotCfg} (hcl : r.cleanup = none) (cfg : Cfg) (hrot : cfg
       (FV.FlwB.inv2_init cfg r hrot) (fun o' ho' => hp o' (List.mem_append_left _ ho'))
       (fun _ _ _ => Nat.zero_le _) (FV.FlwB.monotone_prefix hmono)
       (FV.FlwB.flushed_prefix _ _ hf) (fun _ _ _ _ act h => by cases h)
-      (fun h => by rw [hnm] at h; cases h)
     exact ⟨hI.hw, fun hact => hI.hw_init (Or.inl hnm) hcl o.2.1 hact⟩
   · exact ⟨fun h => absurd h hnm, fun _ h => absurd h hnm⟩
 
